@@ -617,6 +617,18 @@ def setitem(interp, st, o, k, v, node=None):
                 except IndexError:
                     yield st, exc(IndexError, "list assignment index out of range")
                 return
+            if h.items is not None and i is not None and len(h.items) <= 16:
+                n = len(h.items)
+                alts = [(z3.Or(i == j, i == j - n), j) for j in range(n)] + [(z3.Or(i >= n, i < -n), 'oob')]
+                for s1, j in interp.alts(st, alts):
+                    if not interp.feasible(s1):
+                        continue
+                    if j == 'oob':
+                        yield s1, exc(IndexError, "list assignment index out of range")
+                    else:
+                        s1.heap[o.addr].items[j] = v
+                        yield s1, None
+                return
             raise Unsupported("symbolic list element assignment", node)
         if isinstance(h, HObj):
             m = interp.class_attr(h.cls, '__setitem__')
